@@ -72,6 +72,13 @@ def peer_strategy(dll=None, roles=("orig", "resp"), modes=("rts", "rts", "bam"),
             if packets > 120:
                 peer["holds"] = [0]
         p["peer"] = peer
+        # C09: further broadcast sessions of the same stack running at the same time (J1939-22 allows four per originator);
+        # each is paced on its own, whatever the others do
+        if intervals and fd and mode == "bam" and role in ("orig", "s2s"):
+            p["companions"] = draw(st.lists(st.fixed_dictionaries({
+                "n": st.sampled_from([61, 121, 181, 250, 400, 700]), "dt_ms": st.sampled_from([0, 0, 1, 3, 7, 10, 25]),
+                "first": st.booleans()}), max_size=3))
+            p["tx_time"] = draw(st.sampled_from([0.0, 0.0001, 0.0005, 0.002])) if p["companions"] else p["tx_time"]
         return p
     return build()
 
@@ -128,7 +135,16 @@ def run(p):
                     res["r"] = s.cas["s"].send_pgn(p["dp"], p["pf"], ps, p["prio"], list(data))
                 except Exception as e:  # noqa
                     res["r"] = "EXC:%s:%s" % (type(e).__name__, str(e)[:100])
+            comp = p.get("companions") or []
+            for ci_, c_ in enumerate(comp):
+                if c_["first"] and c_["dt_ms"] == 0:
+                    w.at(0.05, (lambda ci_=ci_, c_=c_: s.cas["s"].send_pgn(0, 0xFF, 0x10 + ci_, 6, list(W.make_payload(
+                        {"n": c_["n"], "cls": "arith", "a": 11 + ci_, "b": 3})))))
             w.at(0.05, submit)
+            for ci_, c_ in enumerate(comp):
+                if not (c_["first"] and c_["dt_ms"] == 0):
+                    w.at(0.05 + c_["dt_ms"] / 1000.0, (lambda ci_=ci_, c_=c_: s.cas["s"].send_pgn(0, 0xFF, 0x10 + ci_, 6, list(
+                        W.make_payload({"n": c_["n"], "cls": "arith", "a": 11 + ci_, "b": 3})))))
             if p["mode"] == "rts":
                 per = max(peer_cfg["reply_lat"]) + 2 * maxlat + (p["rts_dt"] or 0) + 0.003 + 2 * p.get("tx_time", 0.0)
                 holds = max(peer_cfg["holds"]) * peer_cfg["hold_gap"]
@@ -138,7 +154,8 @@ def run(p):
                     horizon = min(horizon, 0.05 + n * per + min(n, 200) * holds + 2.0)
             else:
                 interval = p["bam_dt"] if p["bam_dt"] is not None else (0.01 if fd else 0.05)
-                horizon = 0.05 + (n + 2) * (interval + 0.003 + p.get("tx_time", 0.0)) + 1.0
+                nmax = max([n] + [-(-c_["n"] // 60) for c_ in comp])
+                horizon = 0.05 + (nmax + 2) * (interval + 0.003 + p.get("tx_time", 0.0) * (1 + len(comp))) + 1.0 + 0.03
         else:
             if p["mode"] == "rts":
                 w.at(0.05, lambda: peer.originate_rts(SA_S, pgn, data, limit=peer_cfg["limit"], dt_gap=peer_cfg["dt_gap"],
@@ -352,6 +369,9 @@ def judge_flow(p, obs, V, counters):
     site = "%s|%s|%s" % ("22" if fd else "21", p["role"], p["mode"])
     log = obs["log"]
     L = max(p["eps"]) + max(p["disp"]) + 1e-5
+    if p.get("companions"):
+        # a due data frame may wait for the frames of the other sessions the job thread is still writing
+        L += p.get("tx_time", 0.0) * (1 + len(p["companions"]))
     for k2, detail, tt in obs["live"]:
         V("liveness-" + k2, "%s %r" % (k2, detail), site)
     if p["mode"] == "rts":
